@@ -32,3 +32,5 @@ def run(ctx):
     D.r11_4_fresh_class(ctx)
     D.r11_6_user_classes(ctx)
     S.r04_3_registrations(ctx)
+    from . import round3 as R3
+    R3.r11_7_per_call_loader(ctx)
